@@ -82,6 +82,9 @@ fn check(kw: &str, unit: &str, value_text: &str, v: Option<u128>, sign: &str, ca
             rep.count(&format!("skip:{}", w));
         }
         Cmp::AgreeErr(_, _) => rep.count("out_of_range_or_malformed_refused"),
+        // C07 allows "or the input is rejected with an error": whether an in-range value belongs to the
+        // language is C05's subject
+        Cmp::Bad { kind, .. } if kind == "rejects-member" => rep.count("in_range_rejected"),
         Cmp::Bad { kind, what, detail } => {
             let k = if kind.starts_with("accepts-bad-argument") { "accepts-out-of-range".to_string() } else { kind };
             rep.violation(&format!("C07:{}:{}", k, kw), &what, case, detail)
@@ -92,8 +95,9 @@ fn check(kw: &str, unit: &str, value_text: &str, v: Option<u128>, sign: &str, ca
             if kw == "-threads" {
                 match compile_g(&tree, &opts, "/dev/x") {
                     Err(p) => rep.violation(&format!("C07:{}:{}", p.sig(), kw), &format!("compile panicked for {:?}: {}", text, p.0), case, J::obj(vec![("input", J::s(&text))])),
-                    Ok((Err(m), _, _)) => rep.violation("C07:refused:-threads", &format!("{:?} refused by compile: {}", text, m), case, J::Null),
+                    Ok((Err(_), _, _)) => rep.count("refused_by_compile"), // "or the input is rejected": C12/C05 decide whether it may be
                     Ok((Ok(c), _, _)) => match run_policy(&c.text, c.io_map.as_ref(), vec![FileRecord::base(0)]) {
+                        Err(e) if e.is_model_limit() => rep.violation("C07:model-lacks", &format!("{:?}: {}", text, e), case, J::Null),
                         Err(e) => rep.violation("C07:policy-error:-threads", &format!("{:?}: {}", text, e), case, J::obj(vec![("program", J::s(&c.text))])),
                         Ok(run) => {
                             if run.scan.threads != want.threads.map(|x| x as i128) {
@@ -116,7 +120,7 @@ fn check(kw: &str, unit: &str, value_text: &str, v: Option<u128>, sign: &str, ca
                     }
                 }
                 Tv::Skip(_) => rep.skipped_unspecified += 1,
-                Tv::Refused(m) => rep.violation(&format!("C07:refused:{}", kw), &format!("{:?} refused by compile: {}", text, m), case, J::Null),
+                Tv::Refused(_) => rep.count("refused_by_compile"),
                 Tv::Bad { kind, what, mut detail } => {
                     detail.push("input", J::s(&text));
                     rep.violation(&format!("C07:exec-{}:{}", kind, kw), &format!("{:?}: {}", text, what), case, detail)
@@ -177,5 +181,6 @@ pub fn run(ctx: &Ctx, rep: &mut Report) {
     if ctx.only.is_none() {
         rep.floor("in-range and out-of-range values both observed", rep.get("in_range_tree_exact") > 100 && rep.get("out_of_range_or_malformed_refused") > 100);
         rep.floor("constants executed", rep.get("executed_constant_exact") > 100);
+        rep.floor("most in-range values carried (rejections are C05's/C12's subject)", (rep.get("in_range_rejected") + rep.get("refused_by_compile")) * 2 < rep.get("in_range_tree_exact").max(1));
     }
 }
